@@ -175,6 +175,16 @@ func regression(class string, seed int64) []scenario {
 			sc.Writes = []write{{N: 30, Flush: true}}
 			add(sc)
 		}
+	case "dial-greeting":
+		for _, dial := range []bool{true, false} {
+			sc := base("serial", dial, 4096)
+			sc.Greet = 2
+			sc.A = []item{arq(40)}
+			sc.Writes = []write{{N: 30, Flush: true}}
+			add(sc)
+			sc.Greet, sc.ReadBuf, sc.End = 5, 16, "remote"
+			add(sc)
+		}
 	case "empty-frames":
 		sc := base("serial", true, 16)
 		sc.A = []item{arq(0), arq(0), arq(5), arq(0), arq(17), arq(0)}
